@@ -210,7 +210,7 @@ ATTR_R = _random.Random(99)
 def gen_attr(r):
     """-> (rust source, proto)"""
     union = r.random() < 0.08
-    params = r.choice([[], ['T'], ['T', 'U'], ['T', 'U']])
+    params = r.choice([[], ['T'], ['T', 'U'], ['T', 'U'], ['U', 'T'], ['K', 'A']])
     if union:
         params = []
     attrs = []
@@ -317,13 +317,16 @@ impl<X> Mk for Vec<X> {} impl<X> Mk for Option<X> {} impl<X> Mk for Wrapper<X> {
 '''
 
 
+CUR_NAMES = ['T', 'U']
+
+
 class P(T):
     def __init__(self, k):
         super().__init__('P')
         self.k = k
 
     def rust(self):
-        return 'TU'[self.k]
+        return CUR_NAMES[self.k]
 
     def proto(self):
         return f'adt {1000 + self.k} 0'
@@ -335,7 +338,7 @@ class A(T):
         self.k = k
 
     def rust(self):
-        return 'TU'[self.k] + '::A'
+        return CUR_NAMES[self.k] + '::A'
 
     def proto(self):
         return f'adt {2000 + self.k} 0'
@@ -348,7 +351,7 @@ class AS(T):
         self.k = k
 
     def rust(self):
-        return 'TU'[self.k] + '::S'
+        return CUR_NAMES[self.k] + '::S'
 
     def proto(self):
         return f'adt {2500 + self.k} 0'
@@ -402,7 +405,10 @@ def gen_gfield_type(r, params, assoc_ok, selfref):
 
 def gen_gen(r, force=None):
     np = r.choice([1, 1, 2, 2])
-    names = ['T', 'U'][:np]
+    # parameter names in and out of alphabetical order
+    pool = r.choice([['T', 'U'], ['T', 'U'], ['U', 'T'], ['K', 'A'], ['T2', 'T10']])
+    names = pool[:np]
+    CUR_NAMES[:] = pool
     with_assoc = [r.random() < 0.3 for _ in names]
     skipped = [r.random() < 0.25 for _ in names]
     lifetime = r.random() < 0.2
@@ -414,7 +420,7 @@ def gen_gen(r, force=None):
     qself = r.random() < 0.06
     if force is not None:
         # the fixed part of the corpus: every layout of the generics list x every skip pattern, plain members
-        np, names, with_assoc, default_u, qself = 2, ['T', 'U'], [False, False], False, False
+        np, names, with_assoc, default_u, qself = 2, pool[:2], [False, False], False, False
         lifetime, const, const_first, skipped = force['lifetime'], force['const'] != 'none', force['const'] == 'first', force['skipped']
     args_text = ', '.join((["'a"] if lifetime else []) + (['N'] if (const and const_first) else []) + names + (['N'] if (const and not const_first) else []))
     self_text = ('crate::S' if qself else 'S')
@@ -480,7 +486,7 @@ def gen_gen(r, force=None):
         if r.random() < 0.3:
             preds.append(f'{names[k]}: Mk')
     if r.random() < 0.1:
-        preds.append('T: Sized')
+        preds.append(f'{names[0]}: Sized')
     gens = (["'a"] if lifetime else []) + (['const N: usize'] if (const and const_first) else []) + \
         [nm + (': Tr' if (with_assoc[k] and not tr_in_where[k]) else '') + (' = u8' if (default_u and k == 1) else '') for k, nm in enumerate(names)] + \
         (['const N: usize'] if (const and not const_first) else [])
